@@ -1,4 +1,6 @@
-(** C04 — correspondence cases.  One case = one history of calls on FFT<f64> objects, the
+(** C04 — correspondence cases.  One case = one history of calls on FFT<f64> objects (two live objects:
+    the current one, on which every call runs, and a second one that [OSwap] exchanges with it, [OClone]
+    overwrites with a clone of it, and on which [OInvX] runs the inverse transform), the
     observation of every call, and the twiddle table [w] of the largest object of the history
     (hook [verif_tables]), as IEEE-754 binary64 bit patterns.
 
@@ -74,6 +76,10 @@ Inductive op :=
                                                              (* fft_into on destination res0 (small integers), then
                                                                 fft of the same input on the same object *)
 | OInv (a b : list Z) (n : Z) (res0 : list Z) (r : list Z)   (* fft a n, fft b n, product, fft_inv_into res0 *)
+| OSwap                                                      (* exchange the current and the second object *)
+| OClone                                                     (* second object := clone of the current one *)
+| OInvX (a b : list Z) (n : Z) (res0 : list Z) (r : list Z)  (* fft a n, fft b n on the current object, product,
+                                                                fft_inv_into res0 on the SECOND object *)
 | OPanic.                                                    (* the call panicked *)
 Record case := mkcase { table : list (Z * Z); ops : list op }.
 
@@ -83,31 +89,35 @@ Definition dest_of (p : Z * Z) : float * float := (f_of_Z (fst p), f_of_Z (snd p
 Section Run.
 Variable tw : nat -> nat -> float * float.
 Definition m_new : cstate := new_st fops tw.
-(** model of one call: new state, and whether the observation is reproduced *)
-Definition step_model (s : cstate) (o : op) : cstate * bool :=
+(** model of one call: new states of the two objects (current, second), and whether the observation is reproduced *)
+Definition step_model (ss : cstate * cstate) (o : op) : (cstate * cstate) * bool :=
+  let '(s, t) := ss in
   match o with
-  | OFresh => (m_new, true)
-  | OUpd n => (update_n fops tw s (Z.to_nat n), true)
-  | OMul a b r => let '(s', x) := multiply fops tw s a b in (s', leqb Z.eqb x r)
-  | OMulInto a b res0 r => let '(s', x) := multiply_into fops tw s a b res0 in (s', leqb Z.eqb x r)
-  | OFft v n r => let '(s', x) := fft fops tw s v (Z.to_nat n) in (s', leqb ceqb x (map c_of_bits r))
+  | OFresh => ((m_new, t), true)
+  | OUpd n => ((update_n fops tw s (Z.to_nat n), t), true)
+  | OMul a b r => let '(s', x) := multiply fops tw s a b in ((s', t), leqb Z.eqb x r)
+  | OMulInto a b res0 r => let '(s', x) := multiply_into fops tw s a b res0 in ((s', t), leqb Z.eqb x r)
+  | OFft v n r => let '(s', x) := fft fops tw s v (Z.to_nat n) in ((s', t), leqb ceqb x (map c_of_bits r))
   | OFftInto v n res0 r plain =>
       let '(s1, x) := fft_into fops tw s v (Z.to_nat n) (map dest_of res0) in
       let '(s', y) := fft fops tw s1 v (Z.to_nat n) in
-      (s', leqb ceqb x (map c_of_bits r) && leqb ceqb y (map c_of_bits plain))
-  | OInv a b n res0 r => let '(s', x) := inv_prod_into fops tw s a b (Z.to_nat n) res0 in (s', leqb Z.eqb x r)
-  | OPanic => (s, false)
+      ((s', t), leqb ceqb x (map c_of_bits r) && leqb ceqb y (map c_of_bits plain))
+  | OInv a b n res0 r => let '(s', x) := inv_prod_into fops tw s a b (Z.to_nat n) res0 in ((s', t), leqb Z.eqb x r)
+  | OSwap => ((t, s), true)
+  | OClone => ((s, s), true)
+  | OInvX a b n res0 r => let '(ss', x) := inv_prod_x fops tw s t a b (Z.to_nat n) res0 in (ss', leqb Z.eqb x r)
+  | OPanic => (ss, false)
   end.
-Fixpoint run_model (s : cstate) (l : list op) : bool :=
+Fixpoint run_model (ss : cstate * cstate) (l : list op) : bool :=
   match l with
   | [] => true
-  | o :: l' => let '(s', ok) := step_model s o in ok && run_model s' l'
+  | o :: l' => let '(ss', ok) := step_model ss o in ok && run_model ss' l'
   end.
 End Run.
 
 Definition model_check (c : case) : bool :=
   let tw := tw_of_table (map c_of_bits (table c)) in
-  run_model tw (m_new tw) (ops c).
+  run_model tw (m_new tw, m_new tw) (ops c).
 
 (** ** the specification on the integer observations *)
 Definition zip_add_Z (res ys : list Z) : list Z := zip_acc Z.add res ys.
@@ -118,6 +128,11 @@ Definition spec_op (o : op) : bool :=
   | OMulInto a b res0 r => leqb Z.eqb r (zip_add_Z res0 (conv a b))
   | OInv a b n res0 r =>
       (* meaningful when the transform size holds the whole product *)
+      if (Z.of_nat (length a + length b) - 1 <=? n) && negb (length a =? 0)%nat && negb (length b =? 0)%nat
+      then leqb Z.eqb r (zip_add_Z res0 (pad (conv a b) (Z.to_nat n)))
+      else true
+  | OInvX a b n res0 r =>
+      (* the same specification: on which object the inverse transform ran must not matter *)
       if (Z.of_nat (length a + length b) - 1 <=? n) && negb (length a =? 0)%nat && negb (length b =? 0)%nat
       then leqb Z.eqb r (zip_add_Z res0 (pad (conv a b) (Z.to_nat n)))
       else true
@@ -133,24 +148,28 @@ Definition spec_check (c : case) : bool := forallb spec_op (ops c).
 (** for replay files: what the model computes for every call of the history *)
 Inductive shown := SInts (l : list Z) | SCplx (l : list (spec_float * spec_float)) | SNone.
 Definition show_c (l : list (float * float)) := SCplx (map (fun c => (Prim2SF (fst c), Prim2SF (snd c))) l).
-Fixpoint explain_from (tw : nat -> nat -> float * float) (s : cstate) (l : list op) : list shown :=
+Fixpoint explain_from (tw : nat -> nat -> float * float) (ss : cstate * cstate) (l : list op) : list shown :=
   match l with
   | [] => []
   | o :: l' =>
-      let '(s', x) :=
+      let '(s, t) := ss in
+      let '(ss', x) :=
         match o with
-        | OFresh => (m_new tw, SNone)
-        | OUpd n => (update_n fops tw s (Z.to_nat n), SNone)
-        | OMul a b _ => let '(s', x) := multiply fops tw s a b in (s', SInts x)
-        | OMulInto a b res0 _ => let '(s', x) := multiply_into fops tw s a b res0 in (s', SInts x)
-        | OFft v n _ => let '(s', x) := fft fops tw s v (Z.to_nat n) in (s', show_c x)
+        | OFresh => ((m_new tw, t), SNone)
+        | OUpd n => ((update_n fops tw s (Z.to_nat n), t), SNone)
+        | OMul a b _ => let '(s', x) := multiply fops tw s a b in ((s', t), SInts x)
+        | OMulInto a b res0 _ => let '(s', x) := multiply_into fops tw s a b res0 in ((s', t), SInts x)
+        | OFft v n _ => let '(s', x) := fft fops tw s v (Z.to_nat n) in ((s', t), show_c x)
         | OFftInto v n res0 _ _ =>
             let '(s1, x) := fft_into fops tw s v (Z.to_nat n) (map dest_of res0) in
-            (fst (fft fops tw s1 v (Z.to_nat n)), show_c x)
-        | OInv a b n res0 _ => let '(s', x) := inv_prod_into fops tw s a b (Z.to_nat n) res0 in (s', SInts x)
-        | OPanic => (s, SNone)
+            ((fst (fft fops tw s1 v (Z.to_nat n)), t), show_c x)
+        | OInv a b n res0 _ => let '(s', x) := inv_prod_into fops tw s a b (Z.to_nat n) res0 in ((s', t), SInts x)
+        | OSwap => ((t, s), SNone)
+        | OClone => ((s, s), SNone)
+        | OInvX a b n res0 _ => let '(ss', x) := inv_prod_x fops tw s t a b (Z.to_nat n) res0 in (ss', SInts x)
+        | OPanic => (ss, SNone)
         end in
-      x :: explain_from tw s' l'
+      x :: explain_from tw ss' l'
   end.
 Definition explain (c : case) : list shown :=
-  let tw := tw_of_table (map c_of_bits (table c)) in explain_from tw (m_new tw) (ops c).
+  let tw := tw_of_table (map c_of_bits (table c)) in explain_from tw (m_new tw, m_new tw) (ops c).
